@@ -63,6 +63,28 @@ fn family(name: &str, n: usize) -> Option<String> {
         "comments" => format!("SELECT 1 {}", "-- c\n".repeat(n)),
         "semicolons" => format!("SELECT 1{}", ";".repeat(n)),
         "dots" => format!("SELECT a{}", ".a".repeat(n)),
+        "notafterplus" => format!("SELECT 1 + {}1", "NOT ".repeat(n)),
+        "procif" => format!("CREATE PROCEDURE p() BEGIN {}SELECT 1; {}END", "IF 1 THEN ".repeat(n), "END IF; ".repeat(n)),
+        "procifelse" => format!("CREATE PROCEDURE p() BEGIN {}SELECT 1; {}END", "IF 1 THEN SELECT 1; ELSE ".repeat(n), "END IF; ".repeat(n)),
+        "procwhile" => format!("CREATE PROCEDURE p() BEGIN {}SELECT 1; {}END", "WHILE 1 DO ".repeat(n), "END WHILE; ".repeat(n)),
+        "procloop" => format!("CREATE PROCEDURE p() BEGIN {}SELECT 1; {}END", "LOOP ".repeat(n), "END LOOP; ".repeat(n)),
+        "procrepeat" => format!("CREATE PROCEDURE p() BEGIN {}SELECT 1; {}END", "REPEAT ".repeat(n), "UNTIL 1 END REPEAT; ".repeat(n)),
+        "procbegin" => format!("CREATE PROCEDURE p() {}SELECT 1; {}", "BEGIN ".repeat(n), "END; ".repeat(n)),
+        "procinproc" => format!("{}SELECT 1; {}", "CREATE PROCEDURE p() BEGIN ".repeat(n), "END; ".repeat(n)),
+        "funcif" => format!("CREATE FUNCTION f() RETURNS INTEGER BEGIN {}RETURN 1; {}END", "IF 1 THEN ".repeat(n), "END IF; ".repeat(n)),
+        "funcwhile" => format!("CREATE FUNCTION f() RETURNS INTEGER BEGIN {}RETURN 1; {}END", "WHILE 1 DO ".repeat(n), "END WHILE; ".repeat(n)),
+        "trigif" => format!("CREATE TRIGGER tr AFTER INSERT ON t FOR EACH ROW BEGIN {}SELECT 1; {}END", "IF 1 THEN ".repeat(n), "END IF; ".repeat(n)),
+        "trigbegin" => format!("CREATE TRIGGER tr AFTER INSERT ON t FOR EACH ROW {}SELECT 1; {}", "BEGIN ".repeat(n), "END; ".repeat(n)),
+        "setopparen" => format!("{}SELECT 1{}", "(SELECT 1 UNION ".repeat(n), ")".repeat(n)),
+        "intersect" => format!("SELECT 1{}", " INTERSECT SELECT 1".repeat(n)),
+        "except" => format!("SELECT 1{}", " EXCEPT SELECT 1".repeat(n)),
+        "withnest" => format!("{}SELECT 1{}", "WITH c AS (SELECT * FROM (".repeat(n), ") AS d) SELECT 1".repeat(n)),
+        "commajoin" => format!("SELECT * FROM t{}", ", t".repeat(n)),
+        "naturaljoin" => format!("SELECT * FROM t{}", " NATURAL JOIN t".repeat(n)),
+        "viewnest" => format!("{}SELECT 1", "CREATE VIEW v AS ".repeat(n)),
+        "explain" => format!("{}SELECT 1", "EXPLAIN ".repeat(n)),
+        "typeparen" => format!("CREATE TABLE t (a {}INTEGER{})", "ROW(".repeat(n), ")".repeat(n)),
+        "qualified" => format!("SELECT {}a", "a.".repeat(n)),
         "lparens_only" => "(".repeat(n),
         "select_lparens" => format!("SELECT {}", "(".repeat(n)),
         "case_open" => format!("SELECT {}", "CASE WHEN ".repeat(n)),
@@ -70,8 +92,87 @@ fn family(name: &str, n: usize) -> Option<String> {
     })
 }
 
+/// recursive productions: (name, open, innermost, close); a tower of depth n is openⁿ inner closeⁿ
+const PRODUCTIONS: [(&str, &str, &str, &str); 40] = [
+    ("not", "NOT ", "TRUE", ""),
+    ("minus", "- ", "1", ""),
+    ("plus", "+", "1", ""),
+    ("tilde", "~", "1", ""),
+    ("paren", "(", "1", ")"),
+    ("case", "CASE WHEN TRUE THEN ", "1", " END"),
+    ("casewhen", "CASE WHEN ", "TRUE", " THEN 1 END"),
+    ("caseelse", "CASE WHEN FALSE THEN 1 ELSE ", "1", " END"),
+    ("caseoperand", "CASE ", "1", " WHEN 1 THEN 1 END"),
+    ("cast", "CAST(", "1", " AS INTEGER)"),
+    ("function", "ABS(", "1", ")"),
+    ("function2", "COALESCE(1, ", "1", ")"),
+    ("nullif", "NULLIF(", "1", ", 1)"),
+    ("subquery", "(SELECT ", "1", ")"),
+    ("exists", "EXISTS (SELECT 1 WHERE ", "TRUE", ")"),
+    ("notexists", "NOT EXISTS (SELECT 1 WHERE ", "TRUE", ")"),
+    ("trim", "TRIM(", "'a'", ")"),
+    ("trimfrom", "TRIM(BOTH 'x' FROM ", "'a'", ")"),
+    ("trimchar", "TRIM(LEADING ", "'a'", " FROM 'a')"),
+    ("substring", "SUBSTRING(", "'a'", " FROM 1 FOR 1)"),
+    ("substringfrom", "SUBSTRING('a' FROM ", "1", ")"),
+    ("substringcomma", "SUBSTRING('a', ", "1", ", 1)"),
+    ("position", "POSITION('a' IN ", "'a'", ")"),
+    ("positionneedle", "POSITION(", "'a'", " IN 'a')"),
+    ("extract", "EXTRACT(YEAR FROM ", "d", ")"),
+    ("interval", "INTERVAL '1' DAY + ", "d", ""),
+    ("row", "ROW(", "1", ")"),
+    ("array", "ARRAY[", "1", "]"),
+    ("inlist", "1 IN (", "1", ")"),
+    ("insubquery", "1 IN (SELECT ", "1", ")"),
+    ("notin", "1 NOT IN (", "1", ")"),
+    ("between", "1 BETWEEN ", "1", " AND 1"),
+    ("like", "'a' LIKE ", "'a'", ""),
+    ("isnull", "", "1", " IS NULL"),
+    ("isnotnull", "(", "1", " IS NOT NULL)"),
+    ("anyquantified", "1 = ANY (SELECT ", "1", ")"),
+    ("window", "SUM(1) OVER (ORDER BY ", "1", ")"),
+    ("windowframe", "SUM(1) OVER (ORDER BY 1 ROWS ", "1", " PRECEDING)"),
+    ("match", "MATCH (a) AGAINST (", "'a'", ")"),
+    ("concat", "'a' || ", "'a'", ""),
+];
+
+/// syntactic positions of an expression: (name, before, after)
+const POSITIONS: [(&str, &str, &str); 20] = [
+    ("select", "SELECT ", ""),
+    ("afterplus", "SELECT 1 + ", ""),
+    ("aftermul", "SELECT 2 * ", ""),
+    ("aftercmp", "SELECT 1 = ", ""),
+    ("afterand", "SELECT TRUE AND ", ""),
+    ("afteror", "SELECT TRUE OR ", ""),
+    ("where", "SELECT 1 FROM t WHERE ", ""),
+    ("on", "SELECT 1 FROM t JOIN u ON ", ""),
+    ("groupby", "SELECT 1 FROM t GROUP BY ", ""),
+    ("having", "SELECT 1 FROM t GROUP BY a HAVING ", ""),
+    ("orderby", "SELECT 1 FROM t ORDER BY ", ""),
+    ("values", "INSERT INTO t VALUES (", ")"),
+    ("default", "CREATE TABLE t (a INTEGER DEFAULT ", ")"),
+    ("check", "CREATE TABLE t (a INTEGER CHECK (", "))"),
+    ("set", "UPDATE t SET a = ", ""),
+    ("deletewhere", "DELETE FROM t WHERE ", ""),
+    ("fnarg", "SELECT COALESCE(1, ", ")"),
+    ("view", "CREATE VIEW v AS SELECT ", ""),
+    ("procbody", "CREATE PROCEDURE p() BEGIN SET x = ", "; END"),
+    ("triggerbody", "CREATE TRIGGER tr AFTER INSERT ON t FOR EACH ROW BEGIN UPDATE t SET a = ", "; END"),
+];
+
+fn tower(prod: &str, pos: &str, n: usize) -> Option<String> {
+    let p = PRODUCTIONS.iter().find(|p| p.0 == prod)?;
+    let q = POSITIONS.iter().find(|q| q.0 == pos)?;
+    Some(format!("{}{}{}{}{}", q.1, p.1.repeat(n), p.2, p.3.repeat(n), q.2))
+}
+
 fn worker() {
     std::panic::set_hook(Box::new(|_| {}));
+    // a lexer / parser that allocates without bound must die here, not take the machine down
+    unsafe {
+        let lim = libc::rlimit { rlim_cur: 3 << 29, rlim_max: 3 << 29 };
+        libc::setrlimit(libc::RLIMIT_AS, &lim);
+    }
     let stdin = std::io::stdin();
     let out = std::io::stdout();
     for line in stdin.lock().lines() {
@@ -79,7 +180,33 @@ fn worker() {
             Ok(l) => l,
             Err(_) => break,
         };
-        let sql = if let Some(rest) = line.strip_prefix("fam:") {
+        if let Some(rest) = line.strip_prefix("lex:") {
+            // public lexer on the given text; the reply is the canonical token text
+            let text = sx::unhex_str(rest).unwrap_or_default();
+            let r = catch_unwind(move || Lexer::new(&text).tokenize());
+            let got = match &r {
+                Ok(Ok(toks)) => format!("(ok{})", toks.iter().map(|t| format!(" {}", tok_sx(t))).collect::<String>()),
+                Ok(Err(e)) => format!("(err {} {})", err_kind(&e.message), e.position),
+                Err(_) => "(panic)".to_string(),
+            };
+            let mut o = out.lock();
+            let _ = writeln!(o, "lexed {}", got);
+            let _ = o.flush();
+            continue;
+        }
+        let sql = if let Some(rest) = line.strip_prefix("tower:") {
+            let mut it = rest.split(':');
+            let prod = it.next().unwrap_or("");
+            let pos = it.next().unwrap_or("");
+            let n: usize = it.next().and_then(|s| s.parse().ok()).unwrap_or(0);
+            match tower(prod, pos, n) {
+                Some(s) => s,
+                None => {
+                    println!("badfam");
+                    continue;
+                }
+            }
+        } else if let Some(rest) = line.strip_prefix("fam:") {
             let mut it = rest.split(':');
             let name = it.next().unwrap_or("");
             let n: usize = it.next().and_then(|s| s.parse().ok()).unwrap_or(0);
@@ -192,6 +319,44 @@ impl Pool {
             }
             o => o,
         }
+    }
+
+    /// `Lexer::tokenize` in the worker: Ok(canonical token text) or the abnormal outcome
+    fn lex(&mut self, text: &str, timeout: Duration) -> Result<String, WOut> {
+        for attempt in 0..2 {
+            if self.w.is_none() {
+                self.w = Some(Worker::spawn());
+            }
+            let w = self.w.as_mut().unwrap();
+            let line = format!("lex:{}\n", sx::hex_str(text));
+            if w.stdin.write_all(line.as_bytes()).is_err() || w.stdin.flush().is_err() {
+                let st = w.child.wait().map(|s| format!("{}", s)).unwrap_or_default();
+                self.w = None;
+                self.restarts += 1;
+                return Err(WOut::Crash(st));
+            }
+            let limit = if attempt == 0 { timeout } else { timeout * 12 };
+            match w.rx.recv_timeout(limit) {
+                Ok(l) => return Ok(l.strip_prefix("lexed ").unwrap_or(&l).to_string()),
+                Err(std::sync::mpsc::RecvTimeoutError::Timeout) => {
+                    w.kill();
+                    self.w = None;
+                    self.restarts += 1;
+                    if attempt == 0 {
+                        self.slow_retries += 1;
+                        continue;
+                    }
+                    return Err(WOut::Timeout);
+                }
+                Err(_) => {
+                    let st = w.child.wait().map(|s| format!("{}", s)).unwrap_or_default();
+                    self.w = None;
+                    self.restarts += 1;
+                    return Err(WOut::Crash(st));
+                }
+            }
+        }
+        Err(WOut::Timeout)
     }
 
     fn run(&mut self, line: &str, timeout: Duration) -> WOut {
@@ -308,7 +473,10 @@ fn strip_spans(reply: &str) -> (String, bool) {
     }
 }
 
-fn lex_case(s: &str, model: &mut model::Model, rep: &mut Report, tag: &str) {
+fn lex_case(s: &str, model: &mut model::Model, pool: &mut Pool, rep: &mut Report, tag: &str) -> bool {
+    if enough_failures(rep) {
+        return false;
+    }
     let mut ws = String::new();
     let mut al = String::new();
     let mut ups: Vec<String> = vec![];
@@ -328,37 +496,35 @@ fn lex_case(s: &str, model: &mut model::Model, rep: &mut Report, tag: &str) {
     let req = format!("lex {} {} {} ({})", sx::hex_str(s), sx::hex_str(&ws), sx::hex_str(&al), ups.join(" "));
     let m = model.ask(&req);
     let (m_tokens, ordered) = strip_spans(&m);
-    let owned = s.to_string();
-    let res = catch_unwind(move || Lexer::new(&owned).tokenize());
+    // the real lexer runs in the worker process (time and memory limits): a lexer that stops
+    // advancing must not hang the harness
+    let res = pool.lex(s, Duration::from_secs(5));
     let got = match &res {
-        Ok(Ok(toks)) => format!("(ok{})", toks.iter().map(|t| format!(" {}", tok_sx(t))).collect::<String>()),
-        Ok(Err(e)) => format!("(err {} {})", err_kind(&e.message), e.position),
-        Err(_) => "(panic)".to_string(),
+        Ok(g) => g.clone(),
+        Err(o) => format!("{:?}", o),
     };
-    let ntok = match &res {
-        Ok(Ok(t)) => t.len(),
-        _ => 0,
-    };
-    rep.case(&req, ntok >= 3 || matches!(&res, Ok(Err(_))));
+    let ntok = got.matches('(').count().saturating_sub(1) + got.matches(" semi").count() + got.matches(" comma").count() + got.matches(" lp").count() + got.matches(" rp").count();
+    let is_err = got.starts_with("(err");
+    rep.case(&req, ntok >= 3 || is_err);
     rep.count(&format!("lex_{}", tag));
-    rep.count(match &res {
-        Ok(Ok(_)) => "lex_outcome_tokens",
-        Ok(Err(_)) => "lex_outcome_error",
-        Err(_) => "lex_outcome_panic",
+    rep.count(if got.starts_with("(ok") {
+        "lex_outcome_tokens"
+    } else if is_err {
+        "lex_outcome_error"
+    } else {
+        "lex_outcome_abnormal"
     });
     if !s.is_ascii() {
         rep.count("lex_non_ascii_input");
     }
     let shown: String = s.chars().take(300).collect();
     let replay = format!("input (first 300 chars): {:?}\ninput hex: {}\n-- engine: {}\n-- model:  {}", shown, if s.len() < 4000 { sx::hex_str(s) } else { format!("<{} bytes>", s.len()) }, trunc(&got), trunc(&m));
-    if res.is_err() {
-        rep.fail(FailKind::Oracle, None, "Lexer::tokenize panicked", &replay);
-        return;
+    if res.is_err() || got == "(panic)" {
+        rep.fail(FailKind::Oracle, None, &format!("Lexer::tokenize did not return normally: {}", trunc(&got)), &replay);
+        return false;
     }
-    if let Ok(Ok(toks)) = &res {
-        if toks.last() != Some(&Token::Eof) {
-            rep.fail(FailKind::Oracle, None, "token list does not end in Eof", &replay);
-        }
+    if got.starts_with("(ok") && !got.ends_with(" eof)") {
+        rep.fail(FailKind::Oracle, None, "token list does not end in Eof", &replay);
     }
     if !ordered {
         rep.fail(FailKind::ModelDiff, None, "model token spans are not ordered (theorem C23_spans_ordered contradicted?)", &replay);
@@ -366,6 +532,19 @@ fn lex_case(s: &str, model: &mut model::Model, rep: &mut Report, tag: &str) {
     rep.traces_validated += 1;
     if got != m_tokens {
         rep.fail(FailKind::ModelDiff, None, "Lexer::tokenize differs from the Lean lexer model", &replay);
+    }
+    got.starts_with("(ok")
+}
+
+/// Every abnormal termination costs seconds (the worker runs into its time or memory limit and is
+/// restarted). Once several inputs have been reported the property is decided for this run; the
+/// remaining cases are skipped (and counted) so that the run ends with its report.
+fn enough_failures(rep: &mut Report) -> bool {
+    if rep.oracle_failures >= 6 {
+        rep.count("cases_skipped_after_6_abnormal_terminations");
+        true
+    } else {
+        false
     }
 }
 
@@ -489,17 +668,22 @@ fn main() {
     let mut pool = Pool { w: None, restarts: 0, slow_retries: 0 };
     let timeout = Duration::from_secs(5);
     let mut parse_inputs: Vec<String> = vec![];
+    let mut lexed_ok: std::collections::HashSet<String> = Default::default();
 
     // ---- (a) lexer correspondence --------------------------------------------------------------
     for s in CORPUS.iter() {
-        lex_case(s, &mut model, &mut rep, "corpus");
+        if lex_case(s, &mut model, &mut pool, &mut rep, "corpus") {
+            lexed_ok.insert(s.to_string());
+        }
         parse_inputs.push(s.to_string());
         // every truncation point
         let cs: Vec<char> = s.chars().collect();
         let step = if args.quick() { 3 } else { 1 };
         for i in (0..cs.len()).step_by(step) {
             let t: String = cs[..i].iter().collect();
-            lex_case(&t, &mut model, &mut rep, "truncation");
+            if lex_case(&t, &mut model, &mut pool, &mut rep, "truncation") {
+                lexed_ok.insert(t.clone());
+            }
             if i % 7 == 0 {
                 parse_inputs.push(t);
             }
@@ -508,12 +692,14 @@ fn main() {
     for s in [
         "", " ", "--", "-- only a comment", "--\n", "-", "- -", "'", "''", "'''", "\"", "\"\"", "\"\"\"", "`", "``", "`a``b`", "@", "@@", "@@.", "@a@@b", "|", "||", "|||", "!", "!=", "<", "<>", "<=>", "1e", "1e+", "1e-5", "1.2.3", "1..2", ".", "..", ".e5", ".5.5", "5.", "5.e", "5.e1", "0x1F", "1_000", "a.b.c", "a..b", "%", "#", "$1", "?", "[a]", "{", "a\u{0301}b", "sel\u{00A0}ect", "ıN", "ſelect", "SELECT\u{2028}1", "１２３", "a１", "ⅷ", "_x", "_", "a-b", "a--b\nc", "'a\nb'", "'unterminated", "\"unterminated", "`unterminated", "'a''", "x'", "\u{FEFF}SELECT 1", "SELECT 1\0", "\0",
     ] {
-        lex_case(s, &mut model, &mut rep, "edge");
+        if lex_case(s, &mut model, &mut pool, &mut rep, "edge") {
+            lexed_ok.insert(s.to_string());
+        }
         parse_inputs.push(s.to_string());
     }
     for n in [1000usize, 20000, 100000] {
         for s in [format!("SELECT {}", "9".repeat(n)), format!("SELECT '{}'", "x".repeat(n)), format!("SELECT {}", "a".repeat(n)), format!("SELECT 1.{}e{}", "0".repeat(n), "1".repeat(n)), format!("SELECT '{}", "''".repeat(n)), format!("{}", " ".repeat(n)), format!("SELECT \"{}\"", "é".repeat(n))] {
-            lex_case(&s, &mut model, &mut rep, "huge_literal");
+            lex_case(&s, &mut model, &mut pool, &mut rep, "huge_literal");
         }
         if args.quick() && n >= 20000 {
             break;
@@ -531,7 +717,9 @@ fn main() {
         if i < 4 {
             rep.sample(serde_json::json!({"stream": "lexer", "input": s}));
         }
-        lex_case(&s, &mut model, &mut rep, if i % 5 == 4 { "random_unicode" } else { "mutation" });
+        if lex_case(&s, &mut model, &mut pool, &mut rep, if i % 5 == 4 { "random_unicode" } else { "mutation" }) {
+            lexed_ok.insert(s.clone());
+        }
         if i % 3 == 0 {
             parse_inputs.push(s);
         }
@@ -541,8 +729,11 @@ fn main() {
     let t_parse = Instant::now();
     let mut slowest = 0u128;
     for s in &parse_inputs {
+        if enough_failures(&mut rep) {
+            break;
+        }
         let o = pool.run_checked(&sx::hex_str(s).replace('-', ""), timeout);
-        let lexes = Lexer::new(s).tokenize().is_ok();
+        let lexes = lexed_ok.contains(s.as_str());
         rep.case(&format!("parse {}", sx::hex_str(s)), lexes);
         rep.count(match &o {
             WOut::Ok(_) => "parse_ok",
@@ -563,10 +754,14 @@ fn main() {
     let fams = [
         "paren", "not", "minus", "plus", "abs", "case", "casewhen", "subquery", "exists", "inlist", "insub", "derived", "fromparen", "joinparen", "union", "cte", "cast", "coalesce", "between",
         "addchain", "andchain", "orchain", "concatchain", "cmpchain", "mulchain", "likechain", "isnullchain", "commalist", "values", "inwide", "joins", "createcols", "longdigits", "longstring", "longident", "quotes", "comments", "semicolons", "dots", "lparens_only", "select_lparens", "case_open",
+        "notafterplus", "procif", "procifelse", "procwhile", "procloop", "procrepeat", "procbegin", "procinproc", "funcif", "funcwhile", "trigif", "trigbegin", "setopparen", "intersect", "except", "withnest", "commajoin", "naturaljoin", "viewnest", "explain", "typeparen", "qualified",
     ];
-    let sizes: Vec<usize> = if args.quick() { vec![1, 10, 40, 98, 99, 100, 101, 300, 3000, 20000, 100000] } else { vec![1, 10, 40, 90, 98, 99, 100, 101, 150, 300, 1000, 3000, 20000, 100000, 1000000] };
+    let sizes: Vec<usize> = if args.quick() { vec![1, 10, 98, 99, 197, 198, 200, 100000] } else { vec![1, 10, 40, 90, 98, 99, 100, 101, 150, 197, 198, 200, 300, 1000, 5000, 20000, 100000, 1000000] };
     for f in fams {
         for n in &sizes {
+            if enough_failures(&mut rep) {
+                break;
+            }
             let line = format!("fam:{}:{}", f, n);
             let o = pool.run_checked(&line, timeout);
             rep.case(&line, true);
@@ -601,6 +796,76 @@ fn main() {
                 rep.traces_validated += 1;
                 if m != want {
                     rep.fail(FailKind::ModelDiff, None, "nesting skeleton and parser disagree on accept / too deep", &format!("family {} n = {}: parser {:?}, skeleton (budget MAX_NESTING_DEPTH - 1) {}", f, n, o, m));
+                }
+            }
+        }
+    }
+    // ---- towers: every recursive production at depth N in every syntactic position -------------
+    let tower_sizes: [usize; 3] = [200, 5000, 100000];
+    for (pi, p) in PRODUCTIONS.iter().enumerate() {
+        for (qi, q) in POSITIONS.iter().enumerate() {
+            for n in tower_sizes {
+                // quick tier (thorough runs the full product): depth 200 in every second position, depth 5000 in every
+                // tenth, depth 100000 in every eightieth (production, position) pair, rotating with the seed; the
+                // reported inputs are always run
+                let rot = qi + pi + args.seed as usize;
+                let reported = n == 100000 && ((p.0 == "not" && q.0 == "afterplus") || (p.0.starts_with("trim") && q.0 == "select"));
+                if args.quick() && !reported && ((n == 200 && rot % 2 != 0) || (n == 5000 && rot % 10 != 0) || (n == 100000 && rot % 80 != 0)) {
+                    continue;
+                }
+                if enough_failures(&mut rep) {
+                    continue;
+                }
+                let line = format!("tower:{}:{}:{}", p.0, q.0, n);
+                let o = pool.run_checked(&line, timeout);
+                rep.case(&line, true);
+                rep.count(&format!(
+                    "tower_outcome_{}",
+                    match &o {
+                        WOut::Ok(_) => "ok",
+                        WOut::Err(_) => "parse_error",
+                        WOut::TooDeep(_) => "too_deep",
+                        WOut::Panic => "panic",
+                        WOut::Crash(_) => "crash",
+                        WOut::Timeout => "timeout",
+                    }
+                ));
+                rep.count(&format!("tower_depth_{}", n));
+                match &o {
+                    WOut::Ok(ms) | WOut::Err(ms) | WOut::TooDeep(ms) => slowest = slowest.max(*ms),
+                    bad => {
+                        let text = tower(p.0, q.0, 3).unwrap_or_default();
+                        rep.fail(
+                            FailKind::Oracle,
+                            None,
+                            &format!("Parser::parse_sql did not return on a depth-{} tower of production {}: {:?}", n, p.0, bad),
+                            &format!("production {} in position {} at depth {} (depth 3 looks like: {})\nreplay: echo '{}' | harness/target/debug/c23 worker\noutcome: {:?}", p.0, q.0, n, text, line, bad),
+                        );
+                    }
+                }
+            }
+        }
+    }
+    // ---- string-ish literal prefixes × non-ASCII / odd-length content ---------------------------
+    let prefixes = ["x", "X", "b", "B", "n", "N", "e", "E", "u&", "U&", "r", "_utf8", "_binary", "0x", "date", "time", "timestamp", "interval"];
+    let contents = ["", "a", "aé1", "é", "éa", "aé", "é1", "1é0", "日", "a日b", "日本", "😀", "a😀", "😀1", "\u{80}", "ß1", "0é", "00é", "0101010é", "é0101010", "4142é", "4", "414", "g1", "2024-01-01é", "1é"];
+    for pf in prefixes {
+        for c in contents {
+            for sep in ["", " "] {
+                let sql = format!("SELECT {}{}'{}'", pf, sep, c);
+                lex_case(&sql, &mut model, &mut pool, &mut rep, "literal_prefix");
+                if enough_failures(&mut rep) {
+                    continue;
+                }
+                let o = pool.run_checked(&sx::hex_str(&sql), timeout);
+                rep.case(&format!("parse {}", sx::hex_str(&sql)), true);
+                rep.count(match &o {
+                    WOut::Ok(_) => "literal_prefix_ok",
+                    WOut::Err(_) | WOut::TooDeep(_) => "literal_prefix_error",
+                    _ => "literal_prefix_abnormal",
+                });
+                if !matches!(o, WOut::Ok(_) | WOut::Err(_) | WOut::TooDeep(_)) {
+                    rep.fail(FailKind::Oracle, None, &format!("Parser::parse_sql did not return on a prefixed string literal: {:?}", o), &format!("input: {:?}\ninput hex: {}\noutcome: {:?}", sql, sx::hex_str(&sql), o));
                 }
             }
         }
